@@ -32,13 +32,19 @@ Definition decode64 (b : N) : option (bool * Z * Z) :=
 (** The integer v * 2^1074. *)
 Definition fx_of (d : bool * Z * Z) : Z :=
   let '(s, m, e) := d in
-  let a := m * 2 ^ (e + FX) in
+  let a := Z.shiftl m (e + FX) in      (* m * 2^(e+1074); e >= -1074 for every float64 *)
   if s then - a else a.
 
 Definition fx64 (b : N) : option Z := option_map fx_of (decode64 b).
 
 (** An int64 measurement n, in the same fixed-point unit. *)
-Definition fx_int (n : Z) : Z := n * 2 ^ FX.
+Definition fx_int (n : Z) : Z := Z.shiftl n FX.
+
+Lemma fx_int_mul n : fx_int n = n * 2 ^ FX.
+Proof. unfold fx_int, FX. now rewrite Z.shiftl_mul_pow2. Qed.
+
+Lemma fx_of_mul s m e : - FX <= e -> fx_of (s, m, e) = (if s then -1 else 1) * (m * 2 ^ (e + FX)).
+Proof. intro H. unfold fx_of. rewrite Z.shiftl_mul_pow2 by lia. destruct s; lia. Qed.
 
 Lemma f64_man_range b : 0 <= f64_man b < 4503599627370496.
 Proof.
@@ -60,24 +66,55 @@ Qed.
 Lemma decode64_range b s m e :
   decode64 b = Some (s, m, e) -> 0 <= m < 2 ^ 53 /\ -1074 <= e <= 971.
 Proof.
+  change (2 ^ 53) with 9007199254740992.
   unfold decode64. pose proof (f64_man_range b) as Hm. pose proof (f64_exp_range b) as He.
   destruct (f64_exp b =? 2047) eqn:E1; [discriminate|].
-  destruct (f64_exp b =? 0) eqn:E2; intro H; inversion H; subst; clear H.
-  - change (2 ^ 53) with 9007199254740992. lia.
-  - apply Z.eqb_neq in E1. apply Z.eqb_neq in E2. change (2 ^ 53) with 9007199254740992. lia.
+  destruct (f64_exp b =? 0) eqn:E2; intro H.
+  - assert (H2 : f64_man b = m) by congruence.
+    assert (H3 : -1074 = e) by congruence. lia.
+  - assert (H2 : 4503599627370496 + f64_man b = m) by congruence.
+    assert (H3 : f64_exp b - 1075 = e) by congruence.
+    apply Z.eqb_neq in E1. apply Z.eqb_neq in E2. lia.
 Qed.
 
 (** The fixed-point image of every finite float64 lies strictly inside (-2^2098, 2^2098). *)
 Lemma fx64_range b v : fx64 b = Some v -> Z.abs v < 2 ^ 2098.
 Proof.
   unfold fx64. destruct (decode64 b) as [[[s m] e]|] eqn:D; [|discriminate].
-  cbn [option_map]. intro H; inversion H; subst; clear H.
-  apply decode64_range in D as [Hm He]. unfold fx_of, FX.
+  cbn [option_map]. intro H. assert (Hv : v = fx_of (s, m, e)) by congruence. clear H.
+  apply decode64_range in D as [Hm He]. subst v. unfold fx_of, FX.
+  rewrite Z.shiftl_mul_pow2 by lia.
   assert (Hp : 0 < 2 ^ (e + 1074)) by (apply Z.pow_pos_nonneg; lia).
   assert (Hle : 2 ^ (e + 1074) <= 2 ^ 2045) by (apply Z.pow_le_mono_r; lia).
-  assert (Hb : m * 2 ^ (e + 1074) < 2 ^ 53 * 2 ^ 2045) by nia.
-  replace (2 ^ 2098) with (2 ^ 53 * 2 ^ 2045) by (rewrite <- Z.pow_add_r by lia; reflexivity).
+  assert (Hs : 2 ^ 2098 = 2 ^ 53 * 2 ^ 2045) by (rewrite <- Z.pow_add_r by lia; reflexivity).
+  rewrite Hs. clear Hs.
+  assert (H53 : 0 < 2 ^ 53) by (apply Z.pow_pos_nonneg; lia).
+  generalize dependent (2 ^ (e + 1074)). generalize dependent (2 ^ 2045).
+  generalize dependent (2 ^ 53). intros p53 Hm H53 p2045 q Hq Hle.
+  assert (Hb : m * q < p53 * p2045) by nia.
   destruct s; [rewrite Z.abs_opp|]; rewrite Z.abs_eq by nia; exact Hb.
+Qed.
+
+(** float64(n) for an integer n (Go's int64 -> float64 conversion): round to nearest, ties
+    to even, on the 53-bit significand.  Exact for |n| <= 2^53. *)
+Definition round_int_f64 (n : Z) : Z :=
+  let a := Z.abs n in
+  let L := Z.log2 a in
+  if L <=? 52 then n
+  else
+    let sh := L - 52 in
+    let q := Z.shiftr a sh in
+    let rem := a - Z.shiftl q sh in
+    let half := Z.shiftl 1 (sh - 1) in
+    let up := (half <? rem) || ((rem =? half) && Z.odd q) in
+    let r := Z.shiftl (if up then q + 1 else q) sh in
+    if n <? 0 then - r else r.
+
+Lemma round_int_f64_small n : Z.abs n < 2 ^ 53 -> round_int_f64 n = n.
+Proof.
+  intro H. unfold round_int_f64. destruct (Z.eq_dec n 0) as [->|Hn]; [reflexivity|].
+  assert (Z.log2 (Z.abs n) < 53) by (apply Z.log2_lt_pow2; lia).
+  destruct (Z.leb_spec (Z.log2 (Z.abs n)) 52); [reflexivity|lia].
 Qed.
 
 (** ** Positive dyadics against powers of two *)
@@ -121,9 +158,12 @@ Proof.
   rewrite <- Hd. destruct (Z_lt_ge_dec (X - Y) 0) as [Hn|Hp].
   - split; [intros _; now left|intros _].
     replace Y with (X + (Y - X)) by lia. rewrite pow2_split by lia.
-    pose proof (pow2_pos X HX). pose proof (pow2_ge2 (Y - X)). nia.
+    pose proof (pow2_pos X HX) as Hp. assert (Hq : 2 <= 2 ^ (Y - X)) by (apply pow2_ge2; lia).
+    generalize dependent (2 ^ (Y - X)). generalize dependent (2 ^ X). intros p Hp q Hq.
+    assert (2 * p <= p * q) by nia. assert (p * q <= m * (p * q)) by nia. lia.
   - replace X with (Y + (X - Y)) at 1 by lia. rewrite pow2_split by lia.
-    pose proof (pow2_pos Y HY). pose proof (pow2_pos (X - Y)).
+    pose proof (pow2_pos Y HY) as Hy.
+    generalize dependent (2 ^ (X - Y)). generalize dependent (2 ^ Y). intros p Hpp q.
     split.
     + intro H1. right. nia.
     + intros [H1|H1]; [lia|]. nia.
@@ -143,9 +183,12 @@ Proof.
   rewrite <- Hd. destruct (Z_lt_ge_dec (X - Y) 0) as [Hn|Hp].
   - split; [intro H1; exfalso|intros [H1 _]; lia].
     replace Y with (X + (Y - X)) in H1 by lia. rewrite pow2_split in H1 by lia.
-    pose proof (pow2_pos X HX). pose proof (pow2_ge2 (Y - X)). nia.
+    pose proof (pow2_pos X HX) as Hp. assert (Hq : 2 <= 2 ^ (Y - X)) by (apply pow2_ge2; lia).
+    generalize dependent (2 ^ (Y - X)). generalize dependent (2 ^ X). intros p Hp q H1 Hq.
+    assert (2 * p <= p * q) by nia. assert (p * q <= m * (p * q)) by nia. lia.
   - replace X with (Y + (X - Y)) at 1 by lia. rewrite pow2_split by lia.
-    pose proof (pow2_pos Y HY). pose proof (pow2_pos (X - Y)).
+    pose proof (pow2_pos Y HY) as Hy.
+    generalize dependent (2 ^ (X - Y)). generalize dependent (2 ^ Y). intros p Hpp q.
     split.
     + intro H1. split; [lia|]. nia.
     + intros [_ H1]. nia.
